@@ -85,6 +85,42 @@ def _solve_one(args):
     return idx, verdict, model, backend, time.time() - t0
 
 
+def _cvc5_one(args):
+    idx, smt2 = args
+    with tempfile.NamedTemporaryFile('w', suffix='.smt2', delete=False) as f:
+        f.write('(set-logic ALL)\n' + smt2 + ('' if 'check-sat' in smt2 else '\n(check-sat)\n'))
+        path = f.name
+    try:
+        out = subprocess.run(['/usr/bin/cvc5', '--tlimit=20000', '--strings-exp', path], capture_output=True, text=True, timeout=40).stdout
+    except subprocess.TimeoutExpired:
+        out = ''
+    finally:
+        os.unlink(path)
+    first = out.strip().splitlines()[0] if out.strip() else 'unknown'
+    return idx, first if first in ('sat', 'unsat') else 'unknown'
+
+
+def cross_check(obligations, procs=16):
+    """thorough tier: every non-trivial VC is also given to cvc5 (20 s); a proved/refuted DISAGREEMENT is an engine problem.
+    returns dict(agree=, unknown=, disagree=[idents])"""
+    jobs = [(i, to_smt2(ob)) for i, ob in enumerate(obligations) if ob.backend != 'trivial' and ob.verdict in ('proved', 'refuted')]
+    res = {'agree': 0, 'unknown': 0, 'disagree': []}
+    if not jobs or not os.path.exists('/usr/bin/cvc5'):
+        return res
+    ctx = mp.get_context('fork')
+    with ctx.Pool(min(procs, len(jobs))) as pool:
+        for idx, ans in pool.map(_cvc5_one, jobs):
+            ob = obligations[idx]
+            want = 'unsat' if ob.verdict == 'proved' else 'sat'
+            if ans == 'unknown':
+                res['unknown'] += 1
+            elif ans == want:
+                res['agree'] += 1
+            else:
+                res['disagree'].append(ob.ident)
+    return res
+
+
 def discharge(obligations, procs=None):
     """fills verdict/model/backend/time of each obligation; returns total solver seconds"""
     jobs = []
